@@ -221,7 +221,9 @@ func defined(agg, typ string) bool {
 	return typ == "i" || typ == "u" || typ == "f"
 }
 
-func isSelector(agg string) bool { return agg == "min" || agg == "max" || agg == "first" || agg == "last" }
+func isSelector(agg string) bool {
+	return agg == "min" || agg == "max" || agg == "first" || agg == "last"
+}
 
 func aggType(agg string) datatypes.Aggregate_AggregateType {
 	switch agg {
@@ -251,7 +253,8 @@ func caseRand(raw []byte, seed int64) *rand.Rand {
 
 var vmaps = map[string][]vmap{
 	"i": {{typ: "i", a: 1, b: 0}, {typ: "i", a: 3, b: -7}, {typ: "i", a: 1000, b: 1 << 40}, {typ: "i", a: 1, b: -(1 << 50)}},
-	"u": {{typ: "u", a: 1, b: 2}, {typ: "u", a: 5, b: 10}, {typ: "u", a: 1, b: 1 << 40}},
+	// unsigned: a*v+b must stay >= 0 for every abstract value (value patterns reach -6 at MaxT = 9: "down" is 3-t)
+	"u": {{typ: "u", a: 1, b: 8}, {typ: "u", a: 5, b: 40}, {typ: "u", a: 1, b: 1 << 40}},
 	"f": {{typ: "f", fa: 1, fb: 0}, {typ: "f", fa: 0.5, fb: -1.25}, {typ: "f", fa: 2.25, fb: 1024}, {typ: "f", fa: 1, fb: -0.0}},
 	"b": {{typ: "b"}},
 	"s": {{typ: "s"}},
@@ -1070,7 +1073,7 @@ func runTable(raw json.RawMessage, c *wcase, env *rt.Env) rt.Result {
 				ReadFilterSpec: query.ReadFilterSpec{OrganizationID: 1, BucketID: bucket,
 					Bounds: execute.Bounds{Start: values.Time(qs), Stop: values.Time(qe)}, Predicate: fieldPredicate(fieldOf[typ])},
 				WindowEvery: cc.every(), Offset: off,
-				Aggregates:  []plan.ProcedureKind{kinds[q.Agg]}, CreateEmpty: q.Ce,
+				Aggregates: []plan.ProcedureKind{kinds[q.Agg]}, CreateEmpty: q.Ce,
 				Window: execute.Window{Every: dur(cc.every()), Period: dur(cc.every()), Offset: dur(off)},
 			}
 			switch q.Tc {
@@ -1193,6 +1196,11 @@ func adapter(raw json.RawMessage, env *rt.Env) rt.Result {
 	var c wcase
 	if err := json.Unmarshal(raw, &c); err != nil {
 		return rt.Infra("bad case: " + err.Error())
+	}
+	for _, p := range c.Pts {
+		if p.V < -8 {
+			return rt.Infra("abstract value below -8: outside the unsigned concretisation a*v+b >= 0 (harness precondition)")
+		}
 	}
 	switch c.Mode {
 	case "cursor":
